@@ -56,6 +56,23 @@ func ruleRecycleClean(c *Check, a *Analysis, rule string) {
 				continue
 			}
 			key := p.varKey(r.Res)
+			// an object handed straight to its sync.Pool was reset first (some users take objects
+			// from the pool without initialising every field)
+			if isCallTo(r.Instr, "(*sync.Pool).Put") {
+				reset := false
+				for _, st := range storesIn(fn) {
+					if p.varKey(st.Addr) == key && p.dominatesInstr(st, r.Instr) {
+						reset = true
+					}
+				}
+				for _, rs := range callsIn(fn, "(*Context).Reset") {
+					if p.varKey(rs.Common().Args[0]) == key && p.dominatesInstr(rs.(ssa.Instruction), r.Instr) {
+						reset = true
+					}
+				}
+				n++
+				c.Ob(rule, sc.key(fn, "reset before Pool.Put"), p.InstrPos(r.Instr), reset, ifs(!reset, "the object goes back to its pool without having been reset: code that takes objects straight from the pool inherits the previous user's buffers and flags"))
+			}
 			// whole-object stores *obj = … that reach the release
 			for _, st := range storesIn(fn) {
 				if p.varKey(st.Addr) != key || !p.dominatesInstr(st, r.Instr) {
@@ -353,4 +370,344 @@ func itoa(x int64) string {
 		b = "-" + b
 	}
 	return b
+}
+
+// ruleReplaceSlot (C13/C14): a dead pooled connection is replaced in the very slot it was read from.
+func ruleReplaceSlot(c *Check, a *Analysis, rule string) {
+	p := c.P
+	c.Rule(rule, "in getConn a store into an element of an active list (replacement of a connection found dead) uses the very index value the examined element was loaded with (an index obtained by a second, state-advancing Cursor() call overwrites a live neighbour, which is then neither listed nor closed)", 1)
+	gc := p.Fn("(*Transport).getConn")
+	if gc == nil {
+		c.Undecided(rule, "getConn not found")
+		return
+	}
+	sc := siteCounter{}
+	n := 0
+	var loads []*ssa.IndexAddr
+	eachInstr(gc, func(in ssa.Instruction) {
+		if ia, ok := in.(*ssa.IndexAddr); ok && isLoadOf(p.canon(ia.X), "conns", "Conns") && ia.Referrers() != nil {
+			for _, r := range *ia.Referrers() {
+				if u, ok := r.(*ssa.UnOp); ok && u.Op == token.MUL {
+					loads = append(loads, ia)
+				}
+			}
+		}
+	})
+	eachInstr(gc, func(in ssa.Instruction) {
+		st, ok := in.(*ssa.Store)
+		if !ok {
+			return
+		}
+		ia, ok := st.Addr.(*ssa.IndexAddr)
+		if !ok || !isLoadOf(p.canon(ia.X), "conns", "Conns") {
+			return
+		}
+		n++
+		same := false
+		for _, l := range loads {
+			if p.canon(l.Index) == p.canon(ia.Index) && p.dominatesInstr(l, st) {
+				same = true
+			}
+		}
+		c.Ob(rule, sc.key(gc, "replacement goes into the examined slot"), p.InstrPos(st), same, ifs(!same, "the replacement connection is stored at index "+describe(ia.Index)+", which is not the index the dead connection was read from: the dead entry stays in the list and a live one is dropped without being closed"))
+	})
+	if n == 0 {
+		c.Undecided(rule, "getConn does not replace entries of an active list")
+	}
+}
+
+// ruleNormaliseOrder (C13): the connection limit has its default before the idle limit is clamped to it.
+func ruleNormaliseOrder(c *Check, a *Analysis, rule string) {
+	p := c.P
+	if _, ok := c.rules[rule]; !ok {
+		c.Rule(rule, "limits are normalised in the once-initialiser", 1)
+	}
+	for _, fn := range p.AllFns {
+		var clamp ssa.Instruction
+		eachInstrLocal(fn, func(in ssa.Instruction) {
+			b, ok := in.(*ssa.BinOp)
+			if ok && b.Op == token.GTR && isLoadOf(p.canon(b.X), "Transport", "MaxIdleConnsPerHost") && isLoadOf(p.canon(b.Y), "Transport", "MaxConnsPerHost") {
+				clamp = in
+			}
+		})
+		if clamp == nil {
+			continue
+		}
+		ok := true
+		det := ""
+		for _, st := range p.fieldStoresIn(fn, "Transport", "MaxConnsPerHost") {
+			if p.canReach(clamp, st, never) || !p.canReach(st, clamp, never) {
+				ok = false
+				det = "the idle limit is clamped against MaxConnsPerHost at " + p.At(clamp) + " before MaxConnsPerHost has received its default (" + p.At(st) + "): with a non-positive connection limit the idle limit becomes non-positive, retired connections are neither parked nor closed"
+			}
+		}
+		c.Ob(rule, "once#connection limit defaulted before the idle limit is clamped to it", clamp.Pos(), ok, det)
+	}
+}
+
+// ruleShrinkingBound (C15): a loop that removes an element per iteration does not re-read the container's length as its bound.
+func ruleShrinkingBound(c *Check, a *Analysis, rule string) {
+	p := c.P
+	sc := siteCounter{}
+	for _, name := range []string{"(*Transport).run", "(*Transport).CloseIdleConnections", "(*Transport).Close"} {
+		fn := p.Fn(name)
+		if fn == nil {
+			continue
+		}
+		eachInstr(fn, func(in ssa.Instruction) {
+			b, ok := in.(*ssa.BinOp)
+			if !ok || b.Op != token.LSS {
+				return
+			}
+			phi, ok := b.X.(*ssa.Phi)
+			if !ok {
+				return
+			}
+			inc := false
+			for _, e := range phi.Edges {
+				if ad, ok := e.(*ssa.BinOp); ok && ad.Op == token.ADD && ad.X == ssa.Value(phi) {
+					inc = true
+				}
+			}
+			cc, ok := b.Y.(*ssa.Call)
+			if !inc || !ok || cc.Block() != b.Block() {
+				return
+			}
+			if n := calleeName(cc); n != "(*connQueue).Length" && n != "builtin len" {
+				return
+			}
+			// does the loop body remove elements of that container?
+			removes := false
+			for _, f2 := range []string{"(*connQueue).Dequeue", "(*conns).Delete"} {
+				for _, d := range callsIn(fn, f2) {
+					if p.canReach(in, d.(ssa.Instruction), never) && p.canReach(d.(ssa.Instruction), in, never) {
+						removes = true
+					}
+				}
+			}
+			c.Ob(rule, sc.key(fn, "loop bound not re-read while elements are removed"), p.InstrPos(in), !removes, ifs(removes, "the loop counts i upwards against a length it re-reads every iteration while the body removes an element each time: it stops after half of the elements, the rest are dropped from the pool without being closed"))
+		})
+	}
+}
+
+// ruleCursorReset (C17): the rotation cursor is rewound only together with a new live list.
+func ruleCursorReset(c *Check, a *Analysis, rule string) {
+	p := c.P
+	sc := siteCounter{}
+	if _, ok := c.rules[rule]; !ok {
+		c.Rule(rule, "cursor discipline", 1)
+	}
+	for _, s := range p.storesToField("Client", "pos") {
+		st := s.Instr.(*ssa.Store)
+		k, isK := constInt(st.Val)
+		if !isK || k != 0 || baseIsLocalAlloc(s.Base) {
+			continue
+		}
+		ok := false
+		for _, ls := range p.fieldStoresIn(st.Parent(), "Client", "list") {
+			// straight-line: same block, or the list store's block dominates through single-entry blocks only
+			b := st.Block()
+			for b != nil {
+				if b == ls.Block() {
+					ok = true
+					break
+				}
+				if len(b.Preds) != 1 {
+					break
+				}
+				b = b.Preds[0]
+			}
+			// the other order (pos reset first, list stored right after) is as good
+			b = ls.Block()
+			for b != nil {
+				if b == st.Block() {
+					ok = true
+					break
+				}
+				if len(b.Preds) != 1 {
+					break
+				}
+				b = b.Preds[0]
+			}
+		}
+		c.Ob(rule, sc.key(s.Fn, "cursor rewound only with a new live list"), p.InstrPos(st), ok, ifs(!ok, "Client.pos is reset to 0 on a path on which Client.list is not replaced: every liveness re-check rewinds the rotation, so consecutive calls (and latency probes) keep hitting the first targets and the tail of the list starves"))
+	}
+}
+
+// ruleHeapifyStart (C17): heapify sifts every internal node.
+func ruleHeapifyStart(c *Check, a *Analysis, rule string) {
+	p := c.P
+	mh := p.Fn("minHeap")
+	if mh == nil {
+		return
+	}
+	if _, ok := c.rules[rule]; !ok {
+		c.Rule(rule, "heap construction", 1)
+	}
+	// the loop variable that is passed to the sift step (or indexes the heap) starts at n/2-1
+	found, ok := false, false
+	eachInstr(mh, func(in ssa.Instruction) {
+		phi, isPhi := in.(*ssa.Phi)
+		if !isPhi || len(phi.Edges) != 2 {
+			return
+		}
+		dec := false
+		var init ssa.Value
+		for _, e := range phi.Edges {
+			if b, isB := e.(*ssa.BinOp); isB && b.Op == token.SUB && b.X == ssa.Value(phi) {
+				if k, isK := constInt(b.Y); isK && k == 1 {
+					dec = true
+					continue
+				}
+			}
+			init = e
+		}
+		if !dec || init == nil {
+			return
+		}
+		found = true
+		// accepted forms: n/2 - 1, n>>1 - 1, (n-2)/2, (n-2)>>1
+		half := func(v ssa.Value) (ssa.Value, bool) {
+			b, isB := v.(*ssa.BinOp)
+			if !isB {
+				return nil, false
+			}
+			k, isK := constInt(b.Y)
+			if (b.Op == token.QUO && isK && k == 2) || (b.Op == token.SHR && isK && k == 1) {
+				return b.X, true
+			}
+			return nil, false
+		}
+		isLen := func(v ssa.Value) bool {
+			cc, isC := p.canon(v).(*ssa.Call)
+			return isC && (calleeName(cc) == "(list).Len" || calleeName(cc) == "builtin len")
+		}
+		if b, isB := init.(*ssa.BinOp); isB && b.Op == token.SUB {
+			if k, isK := constInt(b.Y); isK && k == 1 {
+				if x, h := half(b.X); h && isLen(x) {
+					ok = true
+				}
+			}
+		}
+		if x, h := half(init); h {
+			if b, isB := x.(*ssa.BinOp); isB && b.Op == token.SUB && isLen(b.X) {
+				if k, isK := constInt(b.Y); isK && k == 2 {
+					ok = true
+				}
+			}
+		}
+	})
+	if !found {
+		c.Undecided(rule, "minHeap has no descending loop over the internal nodes")
+		return
+	}
+	c.Ob(rule, "minHeap#sift starts at the last internal node (n/2-1)", mh.Pos(), ok, ifs(!ok, "heapify does not start at index n/2-1: for some sizes the last internal node is never sifted and the root is not the minimum — the least-time pick is not the fastest target"))
+}
+
+// rulePendingKeys (C01/C19): the pending table is only ever indexed by the sequence number the call was registered with.
+func rulePendingKeys(c *Check, a *Analysis, rule string) {
+	p := c.P
+	c.Rule(rule, "every key used on Conn.pending originates from the connection's sequence counter read in the registering critical section, from the response header's Context.Seq, from a stream's recorded sequence number, or is the key of a range over the table itself — never from state that another goroutine fills in later", 6)
+	sc := siteCounter{}
+	for _, m := range p.mapOps("Conn", "pending") {
+		if m.Key == nil {
+			continue
+		}
+		ok := true
+		why := ""
+		for _, o := range p.origins(m.Key) {
+			o = p.canon(o)
+			switch {
+			case isLoadOf(o, "Conn", "seq"), isLoadOf(o, "Context", "Seq"), isLoadOf(o, "stream", "seq"):
+			case isRangeKeyOf(o, "Conn", "pending", p), isRangeKeyOf(o, "Conn", "streams", p):
+			default:
+				if _, isPrm := o.(*ssa.Parameter); isPrm {
+					continue // handed down by a caller that is checked at its own site
+				}
+				if b, isB := o.(*ssa.BinOp); isB && isLoadOf(p.canon(b.X), "Conn", "seq") {
+					continue
+				}
+				ok = false
+				why = describe(o)
+			}
+		}
+		c.Ob(rule, sc.key(m.Fn, "pending["+m.Kind+"] key"), p.InstrPos(m.Instr), ok, ifs(!ok, "Conn.pending is indexed with "+why+": a value that is not (yet) the call's registered sequence number removes or overwrites another call's entry"))
+	}
+}
+
+func isRangeKeyOf(v ssa.Value, st, field string, p *Prog) bool {
+	e, ok := v.(*ssa.Extract)
+	if !ok || e.Index != 1 {
+		return false
+	}
+	nx, ok := e.Tuple.(*ssa.Next)
+	if !ok {
+		return false
+	}
+	r, ok := nx.Iter.(*ssa.Range)
+	return ok && isLoadOf(p.canon(r.X), st, field)
+}
+
+// ruleNoRewait (C18): a woken waiter completes; it does not start a second full wait.
+func ruleNoRewait(c *Check, a *Analysis, rule string) {
+	p := c.P
+	if _, ok := c.rules[rule]; !ok {
+		c.Rule(rule, "bounded wait", 1)
+	}
+	dir := p.Fn("(*Client).director")
+	if dir == nil {
+		return
+	}
+	// no path from a timer creation / wait registration back to another one, and no self-call
+	var waits []ssa.Instruction
+	for _, w := range callsIn(dir, "(*Client).wait", "time.NewTimer") {
+		waits = append(waits, w.(ssa.Instruction))
+	}
+	again := false
+	for _, w := range waits {
+		for _, w2 := range waits {
+			if p.canReach(w, w2, never) && isCallTo(w2, "(*Client).wait") && isCallTo(w, "(*Client).wait") {
+				again = true
+			}
+		}
+	}
+	self := len(callsIn(dir, "(*Client).director")) > 0
+	for _, f := range withClosures(dir) {
+		if f != dir && len(callsIn(f, "(*Client).director")) > 0 {
+			self = true
+		}
+	}
+	okc := !again && !self
+	c.Ob(rule, "(*Client).director#one wait per call", dir.Pos(), okc, ifs(!okc, "after its wait a caller can enter a second full wait (director re-enters itself / registers again): a caller released while the targets flap waits a multiple of DialTimeout"))
+}
+
+// ruleDeadStaysDead (C18): while rebuilding the live list, a target found not alive is only ever
+// re-marked with ErrDial (any other error value would flag it alive without listing it, and
+// the detector, which probes only targets flagged dead, would never look at it again).
+func ruleDeadStaysDead(c *Check, a *Analysis, rule string) {
+	p := c.P
+	if _, ok := c.rules[rule]; !ok {
+		c.Rule(rule, "alive flag discipline", 1)
+	}
+	sc := siteCounter{}
+	notAlive := negate(func(cond ssa.Value) (bool, bool) {
+		if isLoadOf(p.canon(cond), "target", "alive") {
+			return true, true
+		}
+		return false, false
+	})
+	for _, fn := range p.Fns {
+		if recvName(topParent(fn)) != "Client" {
+			continue
+		}
+		for _, up := range callsIn(fn, "(*target).Update") {
+			g, _ := p.guardedBy(up.(ssa.Instruction), notAlive)
+			if !g {
+				continue
+			}
+			args := up.Common().Args
+			ok := isGlobalLoad(p.canon(args[len(args)-1]), "ErrDial")
+			c.Ob(rule, sc.key(fn, "not-alive target re-marked with ErrDial only"), p.InstrPos(up), ok, ifs(!ok, "a target found not alive is updated with "+describe(args[len(args)-1])+" instead of ErrDial: when that value is not ErrDial the target is flagged alive without being listed, and is never probed or used again"))
+		}
+	}
 }
